@@ -154,6 +154,15 @@ EXTRA5 = {
  "C20": ("; goroutine and channel scan of validation/query code", " Validation, sign-bytes, query and genesis-validation code starts no goroutine and uses no channel."),
 }
 
+EXTRA6 = {
+ "C02": ("; list accessor vs. pagination helpers on the export path", " The export reads every writer (no page-limited walk)."),
+ "C07": ("; account writes in x/burn", " The burn module replaces, creates or removes no account."),
+ "C10": ("; registrations in the params keeper's process memory during blocks (F18)", " No subspace or key table is registered while a block is processed."),
+ "C12": ("; order of set/delete in index moves", " An index entry that is moved is deleted before it is re-written (self-transfers keep it)."),
+ "C18": ("; provenance of range bounds", " Range bounds are encoded keys or PrefixEndBytes of one."),
+ "C19": ("; registrations in the params keeper's process memory during blocks (F18); persistent stores only", " The upgrade handlers register nothing in process memory; module state lives in committed stores."),
+}
+
 PENDING_REASON = "check not built yet in this round (planned per DESIGN.md section 4); no claim is made until the checker rule exists"
 
 def main():
@@ -173,6 +182,8 @@ def main():
                 tech, text = tech + EXTRA4[pid][0], text + EXTRA4[pid][1]
             if pid in EXTRA5:
                 tech, text = tech + EXTRA5[pid][0], text + EXTRA5[pid][1]
+            if pid in EXTRA6:
+                tech, text = tech + EXTRA6[pid][0], text + EXTRA6[pid][1]
             if pid in ("C01","C02","C03","C04","C05","C06","C07","C08","C11","C12","C13","C15","C16","C18"):
                 tech, text = tech + EXTRA2["*"][0], text + EXTRA2["*"][1]
             checks.append({
